@@ -65,6 +65,9 @@ Fixpoint ci_run (ci : cindex) (ops : list ciop) : list ciobs :=
 Record eseg := mkeseg { es_cid : Z; es_ts : rle }.
 Inductive eop :=
 | EBatch (segs : list eseg)
+| EBatchServe (segs : list eseg) (seen : list (Z * Z))
+    (* one Service.Write, then the rebuilder serves the queue BEFORE the chunk writer has flushed the batch:
+       `seen` = per chunk the number of records readable at that moment (what the rebuild scan sees) *)
 | EServe
 | ESync
 | EDrop
@@ -106,6 +109,7 @@ Fixpoint runs_of (l : list ev) (cur : option (Z * Z * Z)) : list (Z * Z * Z) :=
 Definition to_op (o : eop) : op :=
   match o with
   | EBatch segs => HBatch (map (fun s => mkseg (es_cid s) false (unrle (es_ts s))) segs)
+  | EBatchServe segs _ => HBatch (map (fun s => mkseg (es_cid s) false (unrle (es_ts s))) segs)
   | EServe => HServe
   | ESync => HSync
   | EDrop => HDrop
@@ -119,7 +123,10 @@ Definition windows_of (v : variant) (st : pstate) (o1 o2 : option Z) : list (Z *
                  (s_min s, s_max s, s_cnt s)) (combine ci' (p_chunks st)).
 
 Definition e_check_step (st : pstate) (o : eop) (b : eobs) : pstate * bool :=
-  let st' := step impl_variant st (to_op o) in
+  let st' := match o with
+             | EBatchServe _ seen => serve_seen impl_variant (step impl_variant st (to_op o)) seen
+             | _ => step impl_variant st (to_op o)
+             end in
   let ok_state := list_eqb chunk_view_eqb (view_of st') (eo_views b) && list_eqb Z.eqb (sort_z (p_queue st')) (eo_queue b) in
   let ok_read :=
     match o with
